@@ -44,6 +44,11 @@ GEOMS = {
     'same/col->col': ((S(None), 1), [(0, 0), (1, 0)], (S(None), 3), [(0, 2), (1, 2)], True),
     'same/sub->row': (('SUB', (1, S(None)), (S(0, 1), S(0, 2))), [(0, 0), (0, 1)], (2, S(1, 2)), [(1, 0), (1, 1)], True),
     'same/row->sub': ((1, S(2, 3)), [(0, 1), (0, 2)], ('SUB', (S(None), S(None)), (S(1, 2), S(0, 2))), [(1, 0), (1, 1)], True),
+    'same/col->well': ((S(None), 1), [(0, 0), (1, 0)], 'B:3', [(1, 2)], True),
+    'same/row->well': ((1, S(None)), [(0, 0), (0, 1), (0, 2)], ('B', 2), [(1, 1)], True),
+    'list1->row': (['B:2'], [(1, 1)], (1, S(None)), [(0, 0), (0, 1), (0, 2)], False),
+    'row->list1': ((1, S(None)), [(0, 0), (0, 1), (0, 2)], [(2, 2)], [(1, 1)], False),
+    'same/list1->row': (['B:2'], [(1, 1)], (1, S(None)), [(0, 0), (0, 1), (0, 2)], True),
     'samename/row->row': ((1, S(None)), [(0, 0), (0, 1), (0, 2)], (2, S(None)), [(1, 0), (1, 1), (1, 2)], False, (2, 3), 'P'),
     'overlap/row->same-row': ((1, S(None)), [(0, 0), (0, 1), (0, 2)], (1, S(None)), [(0, 0), (0, 1), (0, 2)], True),
     'overlap/shifted': ((1, S(1, 2)), [(0, 0), (0, 1)], (1, S(2, 3)), [(0, 1), (0, 2)], True),
